@@ -198,6 +198,16 @@ def generate(rng, tier):
         if rng.random() < 0.25:
             yield total(f'path.flatten {H(tol)} {s}', 'flatten-lattice')
             yield total(f'path.simplify {H(tol)} {rng.randint(0, 1)} {s}', 'simplify-lattice')
+    # straight cubics with coincident control points at GENERIC coordinates (A,B,B,B / A,A,A,B / A,A,B,B / A,B,B,A): the derivative has a multiple
+    # root at an end, which rounding splits; the cusp handling of the stroker must not turn that into a zero-length piece
+    for k in range(90 if tier == 'quick' else 3000):
+        A = (rng.uniform(-30, 30), rng.uniform(-30, 30))
+        B = (rng.uniform(-30, 30), rng.uniform(-30, 30))
+        pat4 = [(B, B, B), (A, A, B), (A, B, B), (B, B, A)][k % 4 if k % 3 else 0]
+        s4 = f'M {H(*A)} C {H(*pat4[0])} {H(*pat4[1])} {H(*pat4[2])}'
+        dashed = k % 5 == 0
+        pat = [rng.choice([10.0, 5.0, 50.0, 25.0])] * 2 if dashed else []
+        yield total(f'path.stroke {H(rng.choice([0.5, 2.0, 10.0]))} {k % 3} {(k // 3) % 3} {H(4.0)} {H(0.0)} {len(pat)} {H(*pat)} {H(rng.choice([1e-3, 1e-2, 0.1]))} {s4}'.replace('  ', ' '), 'stroke-coincident-control-points')
     n = 80 if tier == 'quick' else 4000
     for els, sc in degenerate_paths(rng, n):
         s = els_str(els)
